@@ -324,12 +324,14 @@ class tree:
                 [
                     c.restriction
                     for c in collect_package_restrictions(x, ("category",))
-                    if not c.negate
+                    # a restriction over several attributes wants the list of
+                    # their values; it can't be asked about a category alone
+                    if not c.negate and len(c.attrs) == 1
                 ],
                 [
                     p.restriction
                     for p in collect_package_restrictions(x, ("package",))
-                    if not p.negate
+                    if not p.negate and len(p.attrs) == 1
                 ],
             )
             for x in restrict.iter_dnf_solutions(True)
@@ -457,7 +459,8 @@ class tree:
                 if node is restrict or not node.negate:
                     stack.extend(node.restrictions)
             elif node is restrict or not getattr(node, "negate", False):
-                if not attrs.isdisjoint(getattr(node, "attrs", ())):
+                node_attrs = getattr(node, "attrs", ())
+                if len(node_attrs) == 1 and node_attrs[0] in attrs:
                     yield node
 
     def _cat_filter(self, cat_restricts, negate=False):
